@@ -116,7 +116,7 @@ theorem C23_templated_survives_partial (env : Env) (f : Field) (a : Argstr) (e :
 /-! ### witnesses (D14): what happens to values that are not inert -/
 
 def dashS : Argstr := ⟨"-s".toList, false, [.lit "-s".toList]⟩
-def fldS : Field := ⟨"s".toList, false, false, some dashS, none, [' ']⟩
+def fldS : Field := ⟨"s".toList, false, false, some dashS, none, [' '], false⟩
 def noEnv : Env := fun _ => none
 
 /-- a blank splits the value into two arguments -/
@@ -149,19 +149,19 @@ theorem C23_witness_not_full : ¬ C23_full_statement := by
 /-- in a templated argstr `strip()` also eats a trailing no-break space, which shlex would have kept -/
 def eqS : Argstr := ⟨"--s={s}".toList, false, [.lit "--s=".toList, .ref "s".toList]⟩
 theorem C23_witness_strip :
-    formatScalar noEnv ⟨"s".toList, false, false, some eqS, none, [' ']⟩ eqS (.str ['a', Char.ofNat 0xa0])
+    formatScalar noEnv ⟨"s".toList, false, false, some eqS, none, [' '], false⟩ eqS (.str ['a', Char.ofNat 0xa0])
       = .ok ["--s=a".toList] := by decide
 
 /-! ### brackets and braces in values (D43, D44) -/
 
 /-- D43: in a templated argstr the bracket clean-up of `argstr_formatting` eats the comma of the VALUE -/
 theorem C23_witness_bracket :
-    formatScalar noEnv ⟨"s".toList, false, false, some eqS, none, [' ']⟩ eqS (.str "a[,b".toList) = .ok ["--s=a[b".toList]
-    ∧ formatScalar noEnv ⟨"s".toList, false, false, some eqS, none, [' ']⟩ eqS (.str "x,]y".toList) = .ok ["--s=x]y".toList] := by
+    formatScalar noEnv ⟨"s".toList, false, false, some eqS, none, [' '], false⟩ eqS (.str "a[,b".toList) = .ok ["--s=a[b".toList]
+    ∧ formatScalar noEnv ⟨"s".toList, false, false, some eqS, none, [' '], false⟩ eqS (.str "x,]y".toList) = .ok ["--s=x]y".toList] := by
   refine ⟨by decide, by decide⟩
 
-def fxEq : FieldX := ⟨⟨"s".toList, false, false, some eqS, none, [' ']⟩, {}⟩
-def fxT : FieldX := ⟨⟨"t".toList, false, false, none, none, [' ']⟩, {}⟩
+def fxEq : FieldX := ⟨⟨"s".toList, false, false, some eqS, none, [' '], false⟩, {}⟩
+def fxT : FieldX := ⟨⟨"t".toList, false, false, none, none, [' '], false⟩, {}⟩
 def noF : FormatterFn := fun _ _ => []
 def strX (s : String) : ValueX := .v (.one (.str s.toList))
 
@@ -187,7 +187,7 @@ theorem C23_lowering_nobrace (a : Argstr) (name value : Str) (h : hasBrace value
 /-! ### non-vacuity -/
 
 example : CleanupProof "$HOME/*.txt;&|<>()#~é".toList := by decide
-example : formatScalar noEnv ⟨"s".toList, false, false, some eqS, none, [' ']⟩ eqS (.str "a;b".toList) = .ok ["--s=a;b".toList] := by
+example : formatScalar noEnv ⟨"s".toList, false, false, some eqS, none, [' '], false⟩ eqS (.str "a;b".toList) = .ok ["--s=a;b".toList] := by
   decide
 
 example : Inert "$HOME/*.txt;&|<>()#~é".toList ∧ "$HOME/*.txt;&|<>()#~é".toList ≠ [] := by decide
